@@ -172,7 +172,24 @@ Theorem C18_render_requests_simulable : forall wd fuel tpl block c g,
   simulable (fun W wr w => render_to W wr wd fuel tpl block c g w).
 Proof. exact render_to_simulable. Qed.
 
+(* render_pure, the data side: interpret() never writes the context or the global context (they
+   are behind `&` in Rust; here: the fields of the final state equal those of the initial one, for
+   every instruction, nested run, writer and failure point), and render_to hands back exactly
+   what it was given. The world `wd` (the engine: templates, components, filters) is an argument
+   of `run` and not part of any result, so there is nothing to state for it. *)
+Theorem C18_interpret_leaves_context_unchanged :
+  forall (W : Type) (wr : W -> str -> option W) wd fuel tpl ae depth ch ip s o s' o',
+  run W wr wd fuel tpl ae depth ch ip s o = RDone s' o' ->
+  context s' = context s /\ global s' = global s.
+Proof. exact run_same_ctx_eq. Qed.
+
+Theorem C18_render_leaves_context_unchanged :
+  forall (W : Type) (wr : W -> str -> option W) wd fuel tpl block c g w s o,
+  render_to W wr wd fuel tpl block c g w = RDone s o -> context s = c /\ global s = Some g.
+Proof. exact render_to_same_ctx. Qed.
+
 Print Assumptions C18_failing_writer_prefix.
+Print Assumptions C18_interpret_leaves_context_unchanged.
 Print Assumptions C18_failing_writer_prefix_run.
 Print Assumptions C18_write_calls_are_ordered.
 Print Assumptions C18_render_eq_render_to.
